@@ -64,13 +64,20 @@ def avg_post(ctx):
     contracts = {"gmm.ml_gmm_m_step": G.spec_ml_m_step, "gmm.map_gmm_m_step": G.spec_map_m_step,
                  "gmm.GMMStats.__iadd__": G.spec_stats_iadd}
     for label in ("one", "list"):
-        for trainer in ("ml", "map"):
+        for trainer, stale in (("ml", 0), ("map", 0), ("ml", 1), ("map", 1)):
             I = new_interp(contracts)
             nb = T.sym("B", "int")
+            # stale=1: the trainer was re-assigned after construction (set_params / plain attribute store):
+            # every field __init__ derived from it still holds the value derived from the old trainer
+            snaps = K.stale_snapshots(I, G.mk_gmm(I, trainer=trainer, ubm=(G.mk_gmm(I, "0") if trainer == "map" else None))) if stale else []
+            if stale and not snaps:
+                continue
 
-            def build(I=I, label=label, trainer=trainer):
-                ubm = G.mk_gmm(I, "0") if trainer == "map" else None
+            def build(I=I, label=label, trainer=trainer, snaps=snaps):
+                ubm = G.mk_gmm(I, "0") if trainer == "map" or snaps else None
                 m = G.mk_gmm(I, trainer=trainer, ubm=ubm, update=(True, True, True))
+                for _, upd in snaps:
+                    m.fields.update(upd)
                 if label == "one":
                     return [[G.mk_stats(I)], m], {}
                 ci = I.classes["GMMStats"]
@@ -96,7 +103,7 @@ def avg_post(ctx):
                     return G.spec_m_step(ctx_, [S], machine)
                 return G.spec_m_step(ctx_, statistics, machine)
             F = G.facts(extra_pos_apps={"n", "nb", "tb", "n0"}, extra_pos_syms={"t"}, dims={"B"})
-            cl = K.check_function(I, "gmm.m_step", build, spec, F, "C03.avg.%s.%s" % (label, trainer),
+            cl = K.check_function(I, "gmm.m_step", build, spec, F, "C03.avg.%s.%s%s" % (label, trainer, ".reassigned" if stale else ""),
                                   state_names={0: "statistics", 1: "machine"}, structural=False)
             out += cl
     avg = [c for c in out if c.name.endswith("result[1]")]
